@@ -125,6 +125,7 @@ def check_case(case, rec, refs=None):
     for i, call in enumerate(case['calls']):
         s, tol = call[0], call[1]
         cdesc = call[2] if len(call) > 2 else case['ctx']
+        shared = bool(call[3]) if len(call) > 3 else bool(case.get('shared_parser'))
         ctx = work.ctx_for(cdesc)
         key = (s, tol, json.dumps(cdesc, sort_keys=True))
         if key not in refs:
@@ -136,10 +137,10 @@ def check_case(case, rec, refs=None):
                 refs[key] = None
         ref = refs[key]
         before = db_snapshot(ctx)
-        PROCESS_LOG.append([s, tol, cdesc])
+        PROCESS_LOG.append([s, tol, cdesc, shared])
         got = json.loads(json.dumps(one_parse({'s': s, 'ctx': cdesc, 'tolerant': tol,
-                                               'shared_parser': bool(case.get('shared_parser'))})))
-        if case.get('shared_parser'):
+                                               'shared_parser': shared})))
+        if shared:
             rec.monitor('parses_with_shared_parser_object')
         after = db_snapshot(ctx)
         rec.monitor('db_snapshots_compared')
